@@ -9,25 +9,35 @@ fn verif_replay() {
     let case: serde_json::Value = serde_json::from_str(&std::fs::read_to_string(path).unwrap()).unwrap();
     let a = case["args"].clone();
     if case["driver"].as_str() == Some("error_reply_lock") {
-        // the failure reply is sent to a client that then just stays connected: is the connection's lock free again?
-        let version = a["version"].as_u64().unwrap_or(5) as u8;
+        // a request the listener refuses (BIND) gets its failure reply; the client then just stays connected. The failure
+        // callback runs under the connection's lock (ContextRefOps::on_error), and the handshake awaits it: if the callback
+        // waits for the client, the handshake -- and with it the lock -- does not come back while the client is there.
         let rt = tokio::runtime::Builder::new_current_thread().enable_all().build().unwrap();
         let out = rt.block_on(async move {
-            use tokio::io::AsyncReadExt;
-            let (mut peer, ours) = tokio::io::duplex(4096);
+            use tokio::io::{AsyncReadExt, AsyncWriteExt};
+            let mut l: SocksListener = serde_yaml::from_str("name: s\nbind: 127.0.0.1:0\n").unwrap();
+            l.init().await.unwrap();
+            let l = Arc::new(l);
+            let tcp = TcpListener::bind("127.0.0.1:0").await.unwrap();
+            let addr = tcp.local_addr().unwrap();
+            let (done_tx, done_rx) = tokio::sync::oneshot::channel::<()>();
+            let client = tokio::spawn(async move {
+                let mut s = TcpStream::connect(addr).await.unwrap();
+                let mut buf = [0u8; 64];
+                s.write_all(&[5, 1, 0]).await.ok();
+                let _ = tokio::time::timeout(std::time::Duration::from_millis(500), s.read(&mut buf)).await;
+                s.write_all(&[5, 2, 0, 1, 0, 0, 0, 0, 0, 0]).await.ok();        // BIND: not supported
+                let n = tokio::time::timeout(std::time::Duration::from_millis(500), s.read(&mut buf)).await.ok().and_then(|r| r.ok()).unwrap_or(0);
+                let _ = done_rx.await;                                           // stay connected, send nothing
+                n
+            });
+            let (socket, source) = tcp.accept().await.unwrap();
             let state: Arc<GlobalState> = Default::default();
-            let ctx = state.contexts.create_context("l".into(), "127.0.0.1:1".parse().unwrap()).await;
-            ctx.write().await.set_client_stream(make_buffered_stream(ours)).set_callback(Callback { version, listen_addr: None });
-            let c2 = ctx.clone();
-            let task = tokio::spawn(async move { c2.on_error(err_msg("refused")).await });
-            let mut buf = [0u8; 64];
-            let n = tokio::time::timeout(std::time::Duration::from_millis(500), peer.read(&mut buf)).await.ok().and_then(|r| r.ok()).unwrap_or(0);
-            // the client keeps its connection open and sends nothing
-            let free = tokio::time::timeout(std::time::Duration::from_millis(1000), ctx.read()).await.is_ok();
-            let done = task.is_finished();
-            task.abort();
-            drop(peer);
-            serde_json::json!({"panicked": false, "reply_len": n, "connection_lock_free_after_reply": free, "callback_returned": done})
+            let (tx, _rx) = tokio::sync::mpsc::channel(4);
+            let returned = tokio::time::timeout(std::time::Duration::from_millis(1500), l.clone().handshake(socket, source, state, tx)).await.is_ok();
+            let _ = done_tx.send(());
+            let n = client.await.unwrap_or(0);
+            serde_json::json!({"panicked": false, "reply_len": n, "connection_lock_free_after_reply": returned, "handshake_returned": returned})
         });
         println!("VERIF-OUTCOME {}", out);
         return;
